@@ -25,16 +25,28 @@ pub fn fix_fn_param_idents(sig: &mut syn::Signature) {
         return;
     }
 
-    if lift_inner_pat_idents(sig).is_ok() {
-        return;
+    if !lift_inner_pat_idents(sig).is_ok() {
+        autogenerate_for_non_idents(sig);
     }
 
-    autogenerate_for_non_idents(sig);
+    // an identifier lifted out of a pattern may coincide with the function's name
+    fix_ident_conflicts(sig);
 }
 
 fn fix_ident_conflicts(sig: &mut syn::Signature) -> ParamStatus {
     let mut status = ParamStatus::Ok;
     let fn_ident_string = sig.ident.to_string();
+    let taken_idents: HashSet<String> = sig
+        .inputs
+        .iter()
+        .filter_map(|fn_arg| match fn_arg {
+            syn::FnArg::Typed(pat_type) => match pat_type.pat.as_ref() {
+                syn::Pat::Ident(pat_ident) => Some(pat_ident.ident.to_string()),
+                _ => None,
+            },
+            syn::FnArg::Receiver(_) => None,
+        })
+        .collect();
 
     for fn_arg in sig.inputs.iter_mut() {
         let arg_status = match fn_arg {
@@ -48,10 +60,12 @@ fn fix_ident_conflicts(sig: &mut syn::Signature) -> ParamStatus {
                     param_ident.subpat = None;
 
                     if param_ident.ident == fn_ident_string {
-                        param_ident.ident = syn::Ident::new(
-                            &format!("{}_", param_ident.ident),
-                            param_ident.ident.span(),
-                        );
+                        let mut new_ident_string = format!("{}_", param_ident.ident);
+                        while taken_idents.contains(&new_ident_string) {
+                            new_ident_string.push('_');
+                        }
+                        param_ident.ident =
+                            syn::Ident::new(&new_ident_string, param_ident.ident.span());
                     }
 
                     ParamStatus::Ok
